@@ -49,6 +49,15 @@ func gen(t *rapid.T) Case {
 	if c.Cfg.Engine == "art" && (pbt.Open("C07-F7") || pbt.Open("C07-F7pad")) {
 		c.Keys = prefixFree(c.Keys)
 	}
+	// chain mode: one or two keys with long version chains of large inline values on small
+	// level/table sizes, so that one key's versions span several blocks and tables and
+	// compactions have to keep a chain together
+	chain := rapid.IntRange(0, 2).Draw(t, "chain") == 0
+	if chain {
+		c.Keys = c.Keys[:1]
+		c.Cfg.ValueThreshold = 1 << 20
+		c.Cfg.SmallLevels = true
+	}
 	inOrder := pbt.Open("C02-R1") // open finding: out-of-order versions are read first-hit-by-level
 	last := map[[2]int]uint64{}
 	n := rapid.IntRange(5, 60).Draw(t, "nops")
@@ -63,7 +72,7 @@ func gen(t *rapid.T) Case {
 			if op.K == "get" && rapid.IntRange(0, 3).Draw(t, "probe") == 0 {
 				op.Ver = rapid.Uint64Range(0, 12).Draw(t, "verProbe")
 			}
-			if op.K != "get" {
+			if op.K != "get" && !chain {
 				id := [2]int{int(op.CF), op.Key}
 				if inOrder && op.Ver < last[id] {
 					op.Ver = last[id] // steered: versions of one key are written in non-decreasing order
@@ -74,9 +83,27 @@ func gen(t *rapid.T) Case {
 			}
 			if op.K == "set" {
 				op.VSize = rapid.SampledFrom([]int{1, 1, 8, 31, 33, 100, 1000, 9000}).Draw(t, "vsize")
+				if chain {
+					op.VSize = rapid.SampledFrom([]int{1000, 4000, 9000}).Draw(t, "vsizeChain")
+				}
+			}
+			if chain && op.K != "get" {
+				op.CF = 0
+				op.Ver = last[[2]int{0, op.Key}] + uint64(rapid.IntRange(0, 2).Draw(t, "dv"))
+				if op.Ver == 0 {
+					op.Ver = 1
+				}
+				last[[2]int{0, op.Key}] = op.Ver
+			}
+			if chain && op.K == "get" {
+				op.CF = 0
+				op.Ver = uint64(rapid.IntRange(0, 45).Draw(t, "gv"))
 			}
 		case "maint":
 			op.M = eng.GenMaint(t)
+			if chain {
+				op.M.Kind = rapid.SampledFrom([]string{"rotate", "rotate", "compact", "compact", "once", "once"}).Draw(t, "mkChain")
+			}
 			if op.M.Kind == "l0l0" && pbt.Open("C01-F1b") {
 				op.M.Kind = "compact"
 			}
